@@ -33,7 +33,7 @@ func StructureModel(str *structure.Structure, options *PreprocessOptions) *Struc
 
 	for _, element := range str.Elements() {
 		if options.IncludeOwnWeight {
-			element.AddOwnWeight()
+			element = element.WithOwnWeight()
 		}
 
 		go sliceElement(element, channel)
